@@ -134,8 +134,8 @@ func buildSource(t *testing.T, idx, blocks, interval, mtb int) *srcChain {
 	}
 	// A registered candidate blocked by Policy: the committee of the next epoch
 	// then depends on Policy's list of blocked accounts.
-	if p.Rejected == nil {
-		if tx := p.BlockCandidate(); tx != nil {
+	for round := 0; round < 3 && p.Rejected == nil; round++ {
+		if tx := p.BlockCandidate(); tx != nil && p.TxKinds[tx.Hash()] == "block-candidate" {
 			p.AddBlock(tx)
 		}
 	}
